@@ -10,7 +10,7 @@ import random, re
 PID = 'C15'
 HARNESS = 'h_c15'
 MODEL_MODULE = 'V.C15.Model'
-READY = False
+READY = True
 RULE = ('cases = (1..6 options over kinds {flag store_true, flag store_false, int, string, vector<int>, ValueMap int, custom notifier} '
         'x composing x implicit x default(valid/invalid), 1..5 operations over assign(source of 0..7 (option,value) pairs with duplicates '
         'and refused strings at every position, optional exclude set) / assignDefaults / fresh ParsedOptions); '
